@@ -77,6 +77,8 @@ const (
 	PValid
 )
 
+const foreignNodeID = 0xCAFEBABE
+
 // Header variants for Litefs-Id.
 const (
 	HAbsent = iota
@@ -168,7 +170,8 @@ func nodeState(n *cluster.CNode, noLocks ...bool) string {
 			names = append(names, nm)
 		}
 	}
-	fmt.Fprintf(&sb, "dir=%v primary=%v\n", names, n.Store.IsPrimary())
+	// (whether the node id this harness sends as "another node" counts as a connected replica)
+	fmt.Fprintf(&sb, "dir=%v primary=%v foreign-subscribed=%v\n", names, n.Store.IsPrimary(), n.Store.SubscriberByNodeID(foreignNodeID) != nil)
 	dbs := n.Store.DBs()
 	sort.Slice(dbs, func(i, j int) bool { return dbs[i].Name() < dbs[j].Name() })
 	for _, db := range dbs {
@@ -271,6 +274,13 @@ func (w *world) settle() {
 	for time.Now().Before(deadline) && quiet < 3 {
 		ok := w.cl.Primary() != nil && w.cl.WaitConverged(50*time.Millisecond) == nil
 		if ok {
+			for _, x := range w.nodes {
+				// a valid /stream of the harness ends when its response is closed; the
+				// server notices a moment later
+				if x.Store.SubscriberByNodeID(foreignNodeID) != nil {
+					ok = false
+				}
+			}
 			for xi, x := range w.nodes {
 				if xi == 0 && w.hold {
 					continue // the halt keeps the primary's locks by design
@@ -507,7 +517,7 @@ func (w *world) build(r Req) (req *http.Request, invalid string) {
 			mark("own node id")
 		}
 	case HForeign:
-		req.Header.Set("Litefs-Id", "00000000CAFEBABE")
+		req.Header.Set("Litefs-Id", litefs.FormatNodeID(foreignNodeID))
 	case HMalformed:
 		req.Header.Set("Litefs-Id", "not hex at all")
 	}
